@@ -60,6 +60,7 @@ FIXED = [
  ("C15", "fix: nil pointers among array elements are nil, and a nil separator is not the text <nil>", "compact kept typed nil pointers and join printed them as '<nil>'; {{ a | join: nothing }} joined with the text '<nil>'"),
  ("C17", "fix: the strings \"nan\", \"inf\" and \"infinity\" are not numbers", "{{ \"nan\" | ceil }} printed -9223372036854775808, {{ \"inf\" | plus: 1 }} printed +Inf instead of reporting a string that does not spell a number"),
  ("C18", "fix: an ordered map's own size key wins also when it is bound to nil", "yaml.MapSlice{{\"size\", nil}}.size gave 1 where a map with the same entry gives nil (also C08)"),
+ ("C03", "fix: cycle only counts in the record of a real loop", "with a binding forloop = {'.cycles': map[string]int{}} a {% cycle %} outside any loop worked and wrote its position into that map: the caller's bindings changed and the position survived into the next render"),
 ]
 KNOWN = [
  # (property, key, what)
